@@ -3,4 +3,6 @@
 #define VERIF_BOARD_BASE_H
 void verif_factory_hook(void);
 #define BOARD_ESP_FACTORY_DEFAULTS verif_factory_hook();
+/* observation of every recognised input state change (supla_esp_board_input_state_change in sdk/fwglue.c) */
+#define BOARD_INPUT_STATE_CHANGE_NOTIF
 #endif
